@@ -204,9 +204,16 @@ ContainerJoinR(kind, cs) == [r |-> ContainerJoin(kind, cs)]
 
 AtOptional(s, i) == IF i >= 0 /\ i < Len(s) THEN Some(s[i + 1]) ELSE None
 AtOptionalR(s, i) == [r |-> AtOptional(s, i)]
+(* the result refers to the element *in* the container: the harness adds `bump` through it *)
+AtOptionalMutR(s, i, bump) ==
+  [r |-> AtOptional(s, i),
+   st |-> IF i >= 0 /\ i < Len(s) THEN [s EXCEPT ![i + 1] = @ + bump] ELSE s]
 
 FindOptMapped(m, k) == IF k \in Keys(m) THEN Some(m[Lookup(m, k)][2]) ELSE None
 FindOptMappedR(m, k) == [r |-> FindOptMapped(m, k)]
+FindOptMappedMutR(m, k, bump) ==
+  [r |-> FindOptMapped(m, k),
+   st |-> IF k \in Keys(m) THEN [m EXCEPT ![Lookup(m, k)] = <<k, @[2] + bump>>] ELSE m]
 
 (* get_or_insert(_with_result): the mapped object of k; create(k) is called and its result
    inserted only if k is absent; inserted = TRUE iff a new element was inserted.  The harness
@@ -217,12 +224,17 @@ GetOrInsertR(m, k, t, bump) ==
       elem == IF found THEN m[Lookup(m, k)][2] ELSE Ap(t, k)
       others == {m[i] : i \in {j \in Indices(m) : m[j][1] # k}}
   IN [elem |-> elem, inserted |-> ~found, log |-> IF found THEN <<>> ELSE <<k>>,
+      \* the object is created first and *then* inserted: create does not see the key in the map
+      present |-> IF found THEN <<>> ELSE <<FALSE>>,
       st |-> PairsSorted(others \cup {<<k, elem + bump>>})]
 
 KeySet(m) == [i \in Indices(m) |-> m[i][1]]
 MapValues(m) == [i \in Indices(m) |-> m[i][2]]
 KeySetR(m) == [r |-> KeySet(m)]
 MapValuesR(m) == [r |-> MapValues(m)]
+(* map_values_ref on a mutable map: the i-th reference refers to the i-th mapped object (the
+   harness adds 10 i through it) *)
+MapValuesRefMutR(m) == [r |-> MapValues(m), st |-> [i \in Indices(m) |-> <<m[i][1], m[i][2] + 10 * i>>]]
 
 (* set algebra on strictly sorted sequences *)
 SetUnion(a, b) == SortedSeqOf(RangeOf(a) \cup RangeOf(b))
